@@ -7,7 +7,10 @@ fn curl_open(s: &str) -> String { s.chars().map(|c| match c { '\'' => '‘', '"'
 fn curl_close(s: &str) -> String { s.chars().map(|c| match c { '\'' => '’', '"' => '”', c => c }).collect() }
 
 /// check one typed text against the property; `o` is the observation after the last key
-pub fn check(env: &Env, rep: &mut Report, opts: &Opts, text: &str, o: &Obs, structured: Option<(&str, &str, &str)>) {
+pub fn check(env: &Env, rep: &mut Report, opts: &Opts, text: &str, o: &Obs, structured: Option<(&str, &str, &str)>) { check_h(env, rep, opts, text, o, structured, &[]) }
+
+/// … `hist`: the events of the context since its creation / its last cleared word (an earlier word and how it ended, then the text)
+pub fn check_h(env: &Env, rep: &mut Report, opts: &Opts, text: &str, o: &Obs, structured: Option<(&str, &str, &str)>, hist: &[String]) {
     let d = &env.data;
     let (p, w, r) = match structured { Some((a, b, c)) => (a.to_string(), b.to_string(), c.to_string()), None => split(text, false) };
     let (cp, cw, cr) = (d.phonetic.convert(&p), d.phonetic.convert(&w), d.phonetic.convert(&r));
@@ -19,7 +22,7 @@ pub fn check(env: &Env, rep: &mut Report, opts: &Opts, text: &str, o: &Obs, stru
             let exp = format!("{}{}{}", cp, cw, cr);
             if *got != exp {
                 rep.violation("C03", "lonely-not-transliteration", format!("typed {:?} opts {}: expected {:?}, got {:?}", text, opts.bits_str(), exp, got),
-                    json!({"stream": "c03", "layout": PHONETIC, "opts": opts.bits_str(), "text": text, "expected": exp, "observed": got}));
+                    with_events(json!({"stream": "c03", "layout": PHONETIC, "opts": opts.bits_str(), "text": text, "expected": exp, "observed": got}), hist));
             }
         }
         Obs::Full { cands, aux, .. } => {
@@ -27,7 +30,7 @@ pub fn check(env: &Env, rep: &mut Report, opts: &Opts, text: &str, o: &Obs, stru
             let exp = if opts.smart_quote && !w.is_empty() { format!("{}{}{}", curl_open(&cp), cw, curl_close(&cr)) } else { format!("{}{}{}", cp, cw, cr) };
             if !cands.contains(&exp) {
                 rep.violation("C03", "transliteration-not-a-candidate", format!("typed {:?} opts {}: {:?} not in {:?}", text, opts.bits_str(), exp, cands),
-                    json!({"stream": "c03", "layout": PHONETIC, "opts": opts.bits_str(), "text": text, "expected_member": exp, "observed": cands}));
+                    with_events(json!({"stream": "c03", "layout": PHONETIC, "opts": opts.bits_str(), "text": text, "expected_member": exp, "observed": cands}), hist));
             }
             if aux != text {
                 rep.violation("C03", "auxiliary-not-typed-text", format!("typed {:?}: aux {:?}", text, aux), json!({"stream": "c03", "text": text, "aux": aux}));
@@ -37,6 +40,8 @@ pub fn check(env: &Env, rep: &mut Report, opts: &Opts, text: &str, o: &Obs, stru
         Obs::Unit => {}
     }
 }
+
+fn with_events(mut v: serde_json::Value, hist: &[String]) -> serde_json::Value { if !hist.is_empty() { v["events"] = json!(hist); } v }
 
 fn settings(sugg: bool) -> Vec<Opts> {
     let mut v = vec![];
@@ -71,8 +76,11 @@ pub fn run(env: &Env) -> Report {
         let xdg = env.fresh_xdg(&format!("c03-{}", si));
         let mut t = env.trace(&format!("c03.{}", si));
         t.line(&format!("case c03-{}", si));
-        let mut s = Sess::new(&mut t, &env.data, "c", PHONETIC, *opts, &xdg).expect("context");
+        // the context is reached by one of four routes (created directly / as a fixed-layout context / with other options, then updated)
+        let mut s = Sess::new_routed(&mut t, &env.data, "c", PHONETIC, *opts, &xdg, si).expect("context");
         let mut rng = Rng::new(seed.wrapping_mul(1000003) ^ si as u64);
+        let earlier = super::common::ascii_keys("ami");
+        let mut nth = 0usize;
         match kind {
             Kind::Short(g) => {
                 let (groups, g) = if *g >= 100 { (8, g - 100) } else { (4, *g) };
@@ -122,8 +130,12 @@ pub fn run(env: &Env) -> Report {
                     let tl = rng.below(4);
                     let trail = from_alphabet(&mut rng, PUNCT27, tl);
                     let txt = format!("{}{}{}", lead, word, trail);
+                    // an earlier word that ended in one of the ways a word can end (finish, ctrl-backspace, backspaces, commit, a learning
+                    // commit of a punctuation-only candidate): what is typed now is still transliterated exactly
+                    nth += 1; s.clear_events();
+                    super::common::prelude(&mut s, &mut t, if nth % 3 == 0 { (nth / 3) % (if opts.phonetic_suggestion { 7 } else { 5 }) } else { 0 }, &earlier);
                     let o = s.type_text(&mut t, &txt);
-                    check(env, &mut rep, opts, &txt, &o, Some((&lead, &word, &trail)));
+                    check_h(env, &mut rep, opts, &txt, &o, Some((&lead, &word, &trail)), &s.events);
                     if rep.samples.len() < 3 { rep.sample(json!({"typed": txt, "opts": opts.bits_str(), "observed": render_obs(&o, true)})); }
                     s.finish(&mut t);
                 }
@@ -133,8 +145,10 @@ pub fn run(env: &Env) -> Report {
                 for _ in 0..n {
                     let len = 1 + rng.below(12);
                     let txt = from_alphabet(&mut rng, TYPEABLE, len);
+                    nth += 1; s.clear_events();
+                    super::common::prelude(&mut s, &mut t, nth % 7, &earlier);
                     let o = s.type_text(&mut t, &txt);
-                    check(env, &mut rep, opts, &txt, &o, None);
+                    check_h(env, &mut rep, opts, &txt, &o, None, &s.events);
                     s.finish(&mut t);
                 }
             }
